@@ -29,7 +29,8 @@ ALLOWED_AXIOMS = []
 PINNED = ["C13_dq", "C13_unquoted_full", "C13_refuted", "C13_unquoted_partial", "C13_unquoted_exact", "Known_C13",
           "C13_subst_refuted", "C13_glob_refuted", "C13_output_refuted", "C13_post_passes", "C13_post_passes_exact",
           "C13_known_is_not_inert", "C13_unquoted_exact_text", "C13_tokenize_unquoted", "C13_post_passes_from",
-          "C13_dq_with_input", "C13_witness_value_and_genuine_lt", "C13_witness_pipe", "C13_witness_gt", "C13_witness_amp", "C13_witness_lt", "C13_nonvacuous"]
+          "C13_dq_with_input", "C13_witness_value_and_genuine_lt", "C13_glob_blank", "C13_glob_tag_whole_path",
+          "C13_expand_glob_one", "C13_witness_glob_dir", "C13_witness_pipe", "C13_witness_gt", "C13_witness_amp", "C13_witness_lt", "C13_nonvacuous"]
 TRUSTED = [
     "Coq 8.16.1 kernel (coqc; coqchk in thorough); vm_compute only in concrete witnesses / non-vacuity examples",
     "hand transcriptions composed by Model/FullPlan.v: parse_line (Model/Tokenizer.v), do_expansion and its passes "
@@ -96,6 +97,15 @@ def place(arg, pos, prog=PROG):
     if pos == "middle":
         return "%s \"y\" %s 'z'" % (prog, arg), ["y"], ["z"]
     return "%s 'y' %s" % (prog, arg), ["y"], []
+
+
+def tree(d):
+    """every file and directory below d, relative"""
+    out = []
+    for root, dirs, files in os.walk(d):
+        for n in dirs + files:
+            out.append(os.path.relpath(os.path.join(root, n), d))
+    return sorted(out)
 
 
 def world_field(ents):
@@ -219,17 +229,29 @@ def subst_cases(ctx, work):
 POPS = [["a>b"], ["x|y"], ["|"], ["&"], ["<"], ["<<<"], ["z z"], ["2>&1"], [">o"], ["#c"], [";x"], ["a", "&"], ["&", "!"],
         ["plain", "a>b", "x|y", "&", "z z", "#c", ";x", "|", "<", "~", "zzz"], ["p q>r"], ["1>f", "2"], ["a>", "b"],
         ["<f", "f"], ["<<x"]]
+# directory components holding a blank AND an operator character: the glob star is in a NON-final component, the produced
+# word is dir/name -- it contains a blank, so expand_glob must give it the double-quote tag (whole path, not only the last
+# component).  q/keep exists so that a redirection to q/f could really create a file.  (files, patterns)
+DIRPOPS = [(["p >q/f", "q/keep"], ["*/f", "p*/f", "p*/*", "*/*"]),
+           (["<a b/f", "f"], ["*/f", "*/*"]),
+           (["a | b/x1", "a | b/x2"], ["*/x1", "a*/x*", "*/*"]),
+           (["d 2>&1/x1", "d >>y/x1", "d &/x1", "my dir/x1", "dz/x1"], ["d*/x*", "*/x1", "m*/x1"]),
+           (["p>q/f", "r <s/f", "t;u #v/f"], ["*/f"])]
 
 
 def glob_cases(ctx, work):
     """populations of files whose names hold operator characters; the glob crate's own answer is the oracle table"""
     cases = []
-    for pi, pop in enumerate(POPS):
+    for pi, pop in enumerate(POPS + DIRPOPS):
         d = os.path.join(work, "pop%d" % pi)
         os.makedirs(d)
+        explicit = None
+        if isinstance(pop, tuple):
+            pop, explicit = pop
         for n in pop:
+            os.makedirs(os.path.dirname(os.path.join(d, n)), exist_ok=True)
             open(os.path.join(d, n), "w").close()
-        pats = ["*"] + sorted(set((n[0] if n[0] not in "*[?" else "") + "*" for n in pop if n[0] not in " '\"|<>&;#~$`(){}\\")) + ["./*"]
+        pats = explicit or (["*"] + sorted(set((n[0] if n[0] not in "*[?" else "") + "*" for n in pop if n[0] not in " '\"|<>&;#~$`(){}\\")) + ["./*"])
         raw_cases = [C.case("globraw", "D\x1d" + d, p) for p in pats]
         raw = C.run_impl(ctx.bins["c13"], C.write_cases("c13_raw.txt", raw_cases), len(raw_cases), shards=1)
         for p, r in zip(pats, raw):
@@ -245,7 +267,7 @@ def glob_cases(ctx, work):
                     classes |= token_classes('"' if " " in n else "", n, not after and k == len(items) - 1)
                 cases.append({"kind": "glob", "line": line, "ents": [("D", "", d), ("G", p, "\x1c".join(items))], "quoted": False,
                               "text": " ".join(items), "value": repr(items), "before": before, "after": after,
-                              "classes": classes, "alts": [items], "dir": d, "pop": pop})
+                              "classes": classes, "alts": [items], "dir": d, "pop": pop, "must": explicit is not None})
     return cases
 
 
@@ -375,6 +397,8 @@ def run(ctx, res):
             if any(ch in c["text"] for ch in "|&;<>#"):
                 res.nontrivial("%s:%s" % (c["kind"], c["text"]))
             inp = {"line": c["line"], "world": [(k, a, b) for k, a, b in c["ents"] if k in "ESRG"], "delivery": c["kind"]}
+            if c["kind"] == "glob":
+                inp["files_in_cwd"] = c["pop"]
             if not o.startswith("exp="):
                 violate(kind="oracle", layer="L1", input=inp, observed=o, failing_input=True,
                         note="from_line panicked / hung / crashed on a command line of the property's domain")
@@ -432,7 +456,7 @@ def run(ctx, res):
         l2 += others[:(500 if ctx.thorough else 60)]
         gl = [c for c in cases if c["kind"] == "glob"]
         rng.shuffle(gl)
-        l2 += gl[:(200 if ctx.thorough else 40)]
+        l2 += [c for c in gl if c.get("must")] + [c for c in gl if not c.get("must")][:(200 if ctx.thorough else 40)]
         from concurrent.futures import ThreadPoolExecutor
 
         def one(job):
@@ -452,8 +476,9 @@ def run(ctx, res):
                 expect_inner = [[hp, "@o", c["value"]]]
             elif c["kind"] == "glob":
                 for n in c["pop"]:
+                    os.makedirs(os.path.dirname(os.path.join(d, n)), exist_ok=True)
                     open(os.path.join(d, n), "w").close()
-            before = sorted(os.listdir(d))
+            before = tree(d)
             try:
                 pr = subprocess.run([ctx.cicada, "-c", line], cwd=d, env=env, stdin=subprocess.DEVNULL,
                                     stdout=subprocess.PIPE, stderr=subprocess.PIPE, timeout=20)
@@ -465,7 +490,7 @@ def run(ctx, res):
                 for l in open(tr):
                     kv = dict(f.split("=", 1) for f in l.rstrip("\n").split("\t") if "=" in f)
                     recs.append([C.dec(a) for a in kv.get("argv", "").split(",")])
-            after = sorted(os.listdir(d))
+            after = tree(d)
             return line, rc, recs, before, after, expect_inner
 
         with ThreadPoolExecutor(max_workers=C.NCPU) as ex:
